@@ -62,14 +62,13 @@ TreesOf(n) ==
   IF n = 1 THEN {AtomOfLen(k) : k \in Lens}
   ELSE UNION { {P(x, y) : x \in TreesOf(k), y \in TreesOf(n - 1 - k)} : k \in {j \in 1..(n - 2) : j % 2 = 1} }
 
-\* the quick tier takes the largest size only over the atom lengths {0, 1, 32}  (3^4 * 5 trees instead of 5^4 * 5)
-QuickLens == {0, 1, 32}
+\* every tree of at most MaxNodes nodes over Lens; the thorough tier adds the trees of MaxNodes + 2 nodes over {0, 1, 32}
+BigLens == {0, 1, 32}
 RECURSIVE LensWithin(_, _)
 LensWithin(x, S) == IF IsAtom(x) THEN Len(x.a) \in S ELSE LensWithin(x.f, S) /\ LensWithin(x.r, S)
 Universe ==
-  UNION {TreesOf(n) : n \in {j \in 1..(MaxNodes - 2) : j % 2 = 1}}
-    \cup (IF Tier = "thorough" THEN TreesOf(MaxNodes)
-          ELSE {x \in TreesOf(MaxNodes) : LensWithin(x, QuickLens)})
+  UNION {TreesOf(n) : n \in {j \in 1..MaxNodes : j % 2 = 1}}
+    \cup (IF Tier = "thorough" THEN {x \in TreesOf(MaxNodes + 2) : LensWithin(x, BigLens)} ELSE {})
 
 FlagsOf(nw) == IF nw THEN {"ENABLE_SHA256_TREE", "NEW_COST_MODEL"} ELSE {"ENABLE_SHA256_TREE"}
 
